@@ -110,7 +110,8 @@ func schedCase(rng *rand.Rand, w *Writer, suite string, kind string, canonical i
 		nonce := uint16(rng.Intn(65536))
 		d.lastNonce = nonce
 		f1 = refJoinRequest(d.appkey, d.appeui, d.eui, nonce)
-		f2 = h.validUplink(d, rng.Intn(2) == 0, false, d.fcnt, 1+rng.Intn(200), randBytes(rng, rng.Intn(20)), nil)
+		confirmedUp = rng.Intn(2) == 0
+		f2 = h.validUplink(d, confirmedUp, false, d.fcnt, 1+rng.Intn(200), randBytes(rng, rng.Intn(20)), nil)
 	case "join-copies":
 		nonce := uint16(rng.Intn(65536))
 		d.lastNonce = nonce
@@ -214,10 +215,19 @@ func schedCase(rng *rand.Rand, w *Writer, suite string, kind string, canonical i
 			// the uplink's handler reads the device, the join runs to its end, the uplink's handler goes on
 			sched = []bool{true}
 			if canonical == 3 {
-				// ... the join runs up to SetJoinAcceptPayload only; the uplink's handler (relaxed counter, nothing queued)
-				// goes on to its buffer read and collects the join-accept; the join finishes last
-				sched = []bool{true, false, false, false, false, false, false}
-				for i := 0; i < 30; i++ {
+				// ... the join runs up to UpdateDevice; the uplink's handler (relaxed counter, nothing queued) goes on until
+				// it stands at its buffer read (it holds the device's slot); the join hands its record to the buffer and is
+				// dropped at its own buffer read as a duplicate; the uplink's handler reads the buffer and sends the join-accept
+				sched = []bool{true, false, false, false, false, false}
+				k := 5 // AdvanceFCntUp CreateUpstreamMessage GetApplicationByEUI ResetActiveAcks GetNextUnsentMessage
+				if confirmedUp {
+					k++ // SetMessageAckFlag
+				}
+				for i := 0; i < k; i++ {
+					sched = append(sched, true)
+				}
+				sched = append(sched, false)
+				for i := 0; i < 12; i++ {
 					sched = append(sched, true)
 				}
 			}
